@@ -40,11 +40,15 @@ type SelRule struct {
 }
 
 type FileRule struct {
-	Path string    `json:"path"`
-	Sync bool      `json:"sync"`
-	Go   bool      `json:"go"`
-	Chan bool      `json:"chan"`
-	Sel  []SelRule `json:"sel"`
+	Path string `json:"path"`
+	Sync bool   `json:"sync"`
+	Go   bool   `json:"go"`
+	Chan bool   `json:"chan"`
+	// Preempt inserts simrt.Preempt(site) before every simple statement and at
+	// the head of every loop body: statement-level preemption points, so that
+	// interleavings between plain memory accesses are explored too.
+	Preempt bool      `json:"preempt"`
+	Sel     []SelRule `json:"sel"`
 }
 
 type AddRule struct {
@@ -170,7 +174,7 @@ func weaveFile(path string, fr FileRule) ([]byte, error) {
 			fmt.Fprintf(os.Stderr, "weave: note: %s does not import sync\n", fr.Path)
 		}
 	}
-	if fr.Go || fr.Chan {
+	if fr.Go || fr.Chan || fr.Preempt {
 		for _, d := range f.Decls {
 			fd, ok := d.(*ast.FuncDecl)
 			if !ok || fd.Body == nil {
@@ -363,9 +367,30 @@ func (w *weaver) block(b *ast.BlockStmt, fr FileRule) {
 func (w *weaver) stmts(list []ast.Stmt, fr FileRule) []ast.Stmt {
 	var out []ast.Stmt
 	for _, s := range list {
+		if fr.Preempt && preemptable(s) {
+			out = append(out, w.preemptStmt(w.site(s)))
+		}
 		out = append(out, w.stmt(s, fr)...)
 	}
 	return out
+}
+
+// preemptable: statements in front of which a preemption point is inserted.
+func preemptable(s ast.Stmt) bool {
+	switch s.(type) {
+	case *ast.ExprStmt, *ast.AssignStmt, *ast.IncDecStmt, *ast.SendStmt, *ast.IfStmt, *ast.ForStmt,
+		*ast.RangeStmt, *ast.SwitchStmt, *ast.TypeSwitchStmt, *ast.SelectStmt, *ast.GoStmt, *ast.ReturnStmt:
+		return true
+	}
+	return false
+}
+
+func (w *weaver) preemptStmt(site string) ast.Stmt {
+	w.needRT = true
+	return &ast.ExprStmt{X: &ast.CallExpr{
+		Fun:  &ast.SelectorExpr{X: ast.NewIdent("simrt"), Sel: ast.NewIdent("Preempt")},
+		Args: []ast.Expr{&ast.BasicLit{Kind: token.STRING, Value: strconv.Quote(site)}},
+	}}
 }
 
 // stmt rewrites one statement, returning its replacement(s).
